@@ -449,6 +449,15 @@ def c06_cells():
                         src = pre + f'\ndef cuse(h: ({pty}) -> Int, y: {sty}) -> Int => h(y)\n\nprint("end")\n'
                     out.append((f'{T}:callable-arg({pty})<-{sty}@{form}', f"callable-arg{'-nullable' if pty.endswith('?') else ''}:{'exact' if sty == pty else ('null-into-nonnull' if not is_sub(sty, pty) else 'conforming')}:{form}",
                                 src, is_sub(sty, pty), {'T': T, 'use': 'callable-arg', 'source': sty, 'ctx': 'fun/' + form}))
+        # `x ? d` written WITHOUT parentheses as right operand (the grammar of the pinned tree binds `?` tighter than the arithmetic operators)
+        if T in ('Int', 'Float'):
+            one_ = '1' if T == 'Int' else '1.5'
+            for uname, stmt in (('local', f'def u: {T} := {one_} + nv ? {v2}'), ('arg', f'print(take({one_} * nv ? {v2}))'), ('reassign', f'def u: {T} := {v}\nu := {one_} + nv ? {v2}'),
+                                ('compare', f'def ub: Bool := {one_} < nv ? {v2}')):
+                for ctx in ('top', 'fun', 'loop'):
+                    src = wrap([f'def nv: {T}? := None'] + stmt.split('\n'), ctx).replace(PRELUDE, pre)
+                    out.append((f'{T}:{uname}<-qdefault-bare-right-operand@{ctx}', f'{uname}:qdefault-bare-right-operand:{ctx}', src, True,
+                                {'T': T, 'use': uname, 'source': 'qdefault-bare-right-operand', 'ctx': ctx, 'direction': 'nonnull-into-nonnull'}))
         # nullable parameter used inside the function
         for uname, stmt, ety in (('local', f'def u: {T} := p', T), ('local-nullable', f'def u: {T}? := p', T + '?'), ('arg', 'print(take(p))', T), ('arg-nullable', 'print(taken(p))', T + '?'),
                                  ('qdefault', f'def u: {T} := p ? {v2}', T + '?')):
